@@ -308,6 +308,15 @@ class Ctx:
         else:
             self.proof_breaks.append(f'leanchecker rejected {module}: {(out + err)[-600:]}')
 
+    # -- deterministic re-execution of one oracle call: the PRNG state in front of the call is stored in the case
+    def snap(self):
+        import base64, pickle
+        return base64.b64encode(pickle.dumps(self.rng.getstate())).decode()
+
+    def restore(self, text):
+        import base64, pickle
+        self.rng.setstate(pickle.loads(base64.b64decode(text)))
+
     def get_driver(self):
         if self.driver is None:
             self.driver = Driver()
